@@ -33,7 +33,7 @@ RULE = (
     "distinct by hash of (dataset seed, program, selection)"
 )
 ASSUMPTIONS = ["read names are unique across samples (mate merging across samples is not in play)", "fixed --mcmc-seed"]
-MCMC = ["--mcmc-steps", "150", "--mcmc-burn", "75", "--mcmc-seed", "11"]
+MCMC = ["--mcmc-steps", "150", "--mcmc-burn", "75"]
 ASM_STAT_KEYS = ["GQ", "SQ", "DP", "RCOUNT", "RCALLS", "MEC", "MECP", "GPM", "SPM", "MCI"]
 
 
@@ -44,7 +44,7 @@ def plan(tier, seed):
 
 def required(tier):
     return {"alone_vs_joint_columns": 100, "subset_permutation_columns": 60, "assemble_haplotype_containment_checked": 30,
-            "pool_read_matrix_checked": 30, "pool_vs_merged_records": 30, "bam_order_runs": 16, "sample_in_two_pools_runs": 8}
+            "pool_read_matrix_checked": 30, "pool_vs_merged_records": 30, "bam_order_runs": 16, "sample_in_two_pools_runs": 8, "datasets_with_shared_bam": 4}
 
 
 def argv(ds, prog, bams, hap=None, ploidy_file=None, extra=()):
@@ -55,8 +55,22 @@ def argv(ds, prog, bams, hap=None, ploidy_file=None, extra=()):
         a += ["--haplotypes", hap, "--reference", ds.fasta]
     a += ["--bam"] + list(bams) + ["--ploidy", ploidy_file or ds.ploidy_file]
     if prog != "call-exact":
-        a += MCMC
+        a += MCMC + ["--mcmc-seed", str(getattr(ds, "mcmc_seed", 11))]
+    if getattr(ds, "inbreeding", 0.0):
+        a += ["--inbreeding", repr(ds.inbreeding)]
     return a + list(extra)
+
+
+def bam_arg(ds, root, sel, bam_of):
+    """--bam value selecting exactly the samples `sel` in that order: plain paths when every BAM holds one sample,
+    otherwise a 'sample<TAB>path' list file (the documented way to pick samples out of multi-sample BAMs)."""
+    if len(set(bam_of.values())) == len(bam_of):
+        return [bam_of[s] for s in sel]
+    p = os.path.join(root, "bams_%s.txt" % "_".join(sel))
+    with open(p, "w") as fh:
+        for s in sel:
+            fh.write("%s\t%s\n" % (s, bam_of[s]))
+    return [p]
 
 
 def by_locus(text):
@@ -84,8 +98,14 @@ def run_shard(tier, seed, spec, col):
         root = env.workdir("c10-%s-%d" % (spec["name"], dI))
         shutil.rmtree(root, ignore_errors=True)
         n_s = int(rng.integers(3, 5))
+        # every second dataset keeps two samples in one BAM file (shared path, separate read groups)
+        spb = 2 if (dI + spec["shard"]) % 2 else 1
         ds = datasets.make_dataset(rng, root, n_samples=n_s, n_loci=int(rng.integers(3, 6)), ploidy=[2, 4], depth=(5, 14), contig_len=800,
-                                   snv_range=(1, 4), hostile=0.1)
+                                   snv_range=(1, 4), hostile=0.1, samples_per_bam=spb, rgs_per_sample=(1, 2))
+        if spb > 1:
+            col.count("datasets_with_shared_bam")
+        ds.mcmc_seed = int(rng.choice([0, 1, 11, 42]))          # 0 is the hostile (falsy) value
+        ds.inbreeding = float(rng.choice([0.0, 0.0, 0.1, 0.3]))
         ds.ploidy_file = os.path.join(root, "ploidy.txt")
         with open(ds.ploidy_file, "w") as fh:
             for s in ds.samples:
@@ -105,7 +125,7 @@ def run_shard(tier, seed, spec, col):
         bam_of = {s: ds.sample_bam[s] for s in ds.samples}
         rep = {"dataset_seed": [seed, spec["shard"], dI]}
         for prog in ("call-exact", "call", "assemble"):
-            out, exc = cli.run_inproc(argv(ds, prog, ds.bams, hv))
+            out, exc = cli.run_inproc(argv(ds, prog, bam_arg(ds, root, ds.samples, bam_of), hv))
             if exc is not None:
                 col.violation("program-fails-on-valid-input", "%s (all samples) raised %r" % (prog, exc), dict(rep, program=prog))
                 continue
@@ -119,7 +139,7 @@ def run_shard(tier, seed, spec, col):
             for sel in selections:
                 case = dict(rep, program=prog, selection=sel)
                 col.case(case, nontrivial=len(sel) >= 2)
-                out2, exc2 = cli.run_inproc(argv(ds, prog, [bam_of[s] for s in sel], hv))
+                out2, exc2 = cli.run_inproc(argv(ds, prog, bam_arg(ds, root, sel, bam_of), hv))
                 if exc2 is not None:
                     col.violation("program-fails-on-valid-input", "%s on samples %s raised %r" % (prog, sel, exc2), case)
                     continue
@@ -184,8 +204,9 @@ def run_shard(tier, seed, spec, col):
             fh.write("P1\t4\nP2\t4\n")
             for s in ds.samples[3:]:
                 fh.write("%s\t%d\n" % (s, ds.ploidy[s]))
-        po = ASM.program.cli(["mchap"] + argv(ds, "assemble", ds.bams, None, pool_ploidy, ["--sample-pool", pool_file]))
-        pj = ASM.program.cli(["mchap"] + argv(ds, "assemble", ds.bams, None))
+        allb = bam_arg(ds, root, ds.samples, bam_of)
+        po = ASM.program.cli(["mchap"] + argv(ds, "assemble", allb, None, pool_ploidy, ["--sample-pool", pool_file]))
+        pj = ASM.program.cli(["mchap"] + argv(ds, "assemble", allb, None))
         for locus in po.loci():
             dp = po._locus_data(locus, po.sample_bams)
             po.encode_sample_reads(dp)
@@ -213,13 +234,19 @@ def run_shard(tier, seed, spec, col):
             alns = []
             for m in members:
                 for al in ds.bam_alignments[bam_of[m]]:
+                    if al["rg"] not in ds.sample_rgs[m]:
+                        continue  # another sample's reads living in the same BAM file
                     x = dict(al)
                     x["rg"] = pool
                     alns.append(x)
             merged[pool] = datasets.write_bam(os.path.join(root, "merged_%s.bam" % pool), ds.contigs, [{"ID": pool, "SM": pool}], alns)
-        rest = [bam_of[s] for s in ds.samples[3:]]
-        outP, excP = cli.run_inproc(argv(ds, "call-exact", ds.bams, hv, pool_ploidy, ["--sample-pool", pool_file]))
-        outM, excM = cli.run_inproc(argv(ds, "call-exact", [merged["P1"], merged["P2"]] + rest, hv, pool_ploidy))
+        listM = os.path.join(root, "bams_merged.txt")
+        with open(listM, "w") as fh:
+            fh.write("P1\t%s\nP2\t%s\n" % (merged["P1"], merged["P2"]))
+            for s in ds.samples[3:]:
+                fh.write("%s\t%s\n" % (s, bam_of[s]))
+        outP, excP = cli.run_inproc(argv(ds, "call-exact", allb, hv, pool_ploidy, ["--sample-pool", pool_file]))
+        outM, excM = cli.run_inproc(argv(ds, "call-exact", [listM], hv, pool_ploidy))
         col.count("sample_in_two_pools_runs")
         case = dict(rep, what="pool-vs-merged")
         col.case(case, nontrivial=True)
